@@ -70,6 +70,37 @@ def _split_job(args):
     return res
 
 
+TURTLE_MOVES = (["sh"] * 8, ["sh", "sh", "wf", "wf", "wf", "wf", "wf", "wf"])
+
+
+def _turtle_job(args):
+    """The real TurtleMD engine, the unmodified scheduler() and a real process pool: straight run vs split run."""
+    idx, total, chain, seed, mi = args
+    from harness import turtlerun
+    work = S._CTX["work"]
+    ra, rb = os.path.join(work, f"ta{os.getpid()}_{idx}"), os.path.join(work, f"tb{os.getpid()}_{idx}")
+    res = {"idx": idx, "seed": seed, "n": 8, "total": total, "chain": chain, "moves": TURTLE_MOVES[mi], "cap": None, "engine": "turtlemd"}
+    try:
+        a, ea = turtlerun.chain(ra, seed, [total], TURTLE_MOVES[mi])
+        b, eb = turtlerun.chain(rb, seed, chain, TURTLE_MOVES[mi])
+    except Exception as exc:  # noqa: BLE001
+        res["harness_error"] = f"{type(exc).__name__}: {exc}"
+        return res
+    finally:
+        sysdrv.cleanup(ra)
+        sysdrv.cleanup(rb)
+    if ea or eb:
+        res["error"] = ea or eb
+        return res
+    if a[0] != b[0]:
+        la, lb = a[0].decode().splitlines(), b[0].decode().splitlines()
+        k = next((i for i, (x, y) in enumerate(zip(la, lb)) if x != y), min(len(la), len(lb)))
+        res["diff"] = {"file": "infretis_data.txt", "line": k, "straight": la[k] if k < len(la) else None, "split": lb[k] if k < len(lb) else None}
+    elif a[1] != b[1]:
+        res["diff"] = {"file": "restart.toml", "keys": [k for k in a[1]["current"] if a[1]["current"].get(k) != b[1]["current"].get(k)][:6]}
+    return res
+
+
 def main(tier, replay=None):
     if replay:
         return S.replay_main(PID, replay)
@@ -113,6 +144,36 @@ def main(tier, replay=None):
             chk.violation(f"{kind}:differs:{r['diff']['file']};seed_is_zero:{r['seed'] == 0}",
                           f"{'two identical runs' if kind == 'rerun' else 'straight run and run split at ' + str(r['chain'][:-1])} "
                           f"(seed {r['seed']}) differ in {r['diff']['file']}", rp)
+    # the same comparison with the real TurtleMD engine (Langevin dynamics with the job's engine stream), the unmodified scheduler() and
+    # a real process pool
+    tjobs = []
+    for seed in ([0, 3, 12345] if q else [0, 1, 3, 12345, 99, 2 ** 31 + 5]):
+        for mi in (0, 1):
+            tot = 10 if q else 16
+            k = rnd.randrange(1, tot)
+            tjobs.append((len(tjobs), tot, [k, tot], seed, mi))
+            if not q or seed == 3:
+                a = rnd.randrange(1, tot - 2)
+                tjobs.append((len(tjobs), tot, [a, rnd.randrange(a + 1, tot), tot], seed, mi))
+        tjobs.append((len(tjobs), 10, [10], seed, 1))
+    tres = common.pmap(_turtle_job, tjobs, procs=6)
+    for r in tres:
+        chk.evaluated(1)
+        chk.traces(2)
+        chk.nontrivial(("turtle", r["seed"], tuple(r["chain"]), tuple(r["moves"])))
+        rp = {"property": PID, "binding": "C", "kind": "split-vs-straight:turtlemd", "run": {k: r[k] for k in ("seed", "total", "chain", "moves")}}
+        if "harness_error" in r:
+            chk.machinery(f"TurtleMD comparison failed in the harness: {r['harness_error']}")
+        elif "error" in r:
+            rp["observed"] = r["error"]
+            chk.violation("split:error:turtlemd", f"a TurtleMD run failed: {r['error']}", rp)
+        elif "diff" in r:
+            rp["observed"] = r["diff"]
+            kind = "rerun" if len(r["chain"]) == 1 else "split"
+            chk.violation(f"{kind}:differs:{r['diff']['file']};engine:turtlemd;seed_is_zero:{r['seed'] == 0}",
+                          f"TurtleMD: {'two identical runs' if kind == 'rerun' else 'straight run and run split at ' + str(r['chain'][:-1])} "
+                          f"(seed {r['seed']}) differ in {r['diff']['file']}", rp)
+    print(f"  TurtleMD split/straight comparisons (real scheduler, real pool): {len(tres)}", flush=True)
     if results:
         chk.sample({"kind": "straight vs split run, files compared byte for byte", "example": {k: results[0][k] for k in ("seed", "n", "chain")}})
     print(f"  split/straight comparisons: {len(results)}", flush=True)
@@ -125,6 +186,7 @@ def main(tier, replay=None):
     sc.random_runs(specs)
     chk.assumptions += ["one-worker runs are compared byte for byte (infretis_data.txt; restart.toml as a parsed dict without the "
                         "restarted_from bookkeeping key); allowmaxlength = true as the property's scope note says",
-                        "the lattice plug-in engine produces integer order parameters, lossless at six decimals"]
+                        "the lattice plug-in engine produces integer order parameters, lossless at six decimals; the TurtleMD runs use the "
+                        "example's x position rounded to the six decimals order.txt stores (the scope note of the property)"]
     return sc.finish("(seed, split chain, move set) combinations, each executed twice on the real code (straight and split) and compared; "
                      "multi-worker kill/restart behaviours and runs validated by the trace specification; distinct by parameters")
